@@ -124,7 +124,7 @@ def gen(seed, family=None, knobs=None):
         want.append(("bak_srv", "server", ips["backup"], 0, ["ftp-server"]))
     else:
         ips["backup"] = None
-    nclients = rnd.randint(1, 3)
+    nclients = max(rnd.randint(1, 3), int(knobs.get("min_clients", 0)))
     rnd_k = random.Random(f"{seed}-host-kinds")
     for i in range(nclients):
         si = rnd.randrange(len(subnets))
